@@ -7,7 +7,8 @@
              "crypto_aesctr_stream_pre_wholeblock", "crypto_aesctr_stream_post_wholeblock"],
  "annotate": ["crypto/crypto_aesctr.c", "crypto/crypto_aesctr_shared.c"],
  "defines": ["VERIF_HALLOC"],
- "timeout": 60,
+ "matrix": {"BUFMODE": [0, 1, 2, 3]},
+ "timeout": 400,
  "assumptions": ["generic build (no CPUSUPPORT_*): portable path only",
                  "buffer objects <= CTR_MAXLEN (64) bytes; stream position, call length and loop count are unbounded (loop contract)",
                  "domain: bytectr + buflen < 2^64 (stream length limit of the 64-bit byte counter)"]
@@ -27,8 +28,7 @@ h_stream(void)
 	IN(size_t, len);
 	__CPROVER_assume(len <= CTR_MAXLEN);
 	CTR_MK_BUFS(in, out, len);
-	g_ctr_in = in;		/* ghost arguments: the buffers of this call */
-	g_ctr_out = out;
+	CTR_CALL(in, out, len);		/* ghost arguments: the buffers of this call */
 	uint64_t ctr0 = S->bytectr;
 	uint8_t inb = (g_i < len) ? in[g_i] : 0;
 	const struct crypto_aes_key * key0 = S->key;
@@ -44,8 +44,12 @@ h_stream(void)
 		__CPROVER_assert(out[g_i] == (inb ^ CTR_KS(ctr0 + g_i)), "out[i] = in0[i] ^ E(key, nonce||be64((pos+i)/16))[(pos+i)%16]");
 	VCOVER(len == 0);
 	VCOVER(len == 3 && ctr0 % 16 == 14 && g_i == 2 && CTR_AT(S, ctr0 + g_i));			/* straddles a block */
+#if BUFMODE == 1
 	VCOVER(len == 40 && ctr0 % 16 == 5 && g_i == 39 && CTR_AT(S, ctr0 + g_i) && bufmode == 1);	/* head+2 blocks+tail, in place */
+#endif
 	VCOVER(len == 32 && ctr0 == 16 * 255 && g_i == 16 && CTR_AT(S, ctr0 + g_i));			/* counter carry inside a call */
+#if BUFMODE == 0
 	VCOVER(len == 16 && ctr0 == 0 && g_i == 0 && CTR_AT(S, ctr0 + g_i) && bufmode == 0);
+#endif
 	VCOVER(len == 2 && ctr0 % 16 == 3 && g_i == 1 && CTR_AT(S, ctr0 + g_i));				/* sub-block call inside a block */
 }
